@@ -4,6 +4,7 @@ import (
 	"bytes"
 	"encoding/json"
 	"fmt"
+	"sort"
 	"strings"
 
 	"github.com/nyaruka/gocommon/i18n"
@@ -197,6 +198,7 @@ func scenarioURNs(s *gen.Scenario) []string {
 	for _, m := range s.Resumes {
 		mapURNs(m, f)
 	}
+	sort.Strings(out) // the walk visits map members in map order; callers draw from this list
 	return out
 }
 
